@@ -4,7 +4,7 @@
    and [k1] (ntp.ToNTP), every clock rate, both settings of use-latest, and
    every operation list (no bound on its length). *)
 From IV Require Import Base.Word Model.Ntp Model.SenderStream Spec.SenderSpec
-  Proofs.SenderStreamProofs Check.C07Check.
+  Proofs.SenderStreamProofs Proofs.SenderInterceptorProofs Check.C07Check.
 
 (* Every report of every history is the specification's report on the sends
    before it: NTP = ToNTP(now); RTP time = timestamp of the newest packet
@@ -102,3 +102,15 @@ Theorem C07_oracle_not_stronger : forall ek k1 rate ul,
   forall h now, report_code rate ul h now (sp_report ek k1 rate ul h now) = 0%nat.
 Proof. intros. apply model_passes_oracle; auto. Qed.
 Print Assumptions C07_oracle_not_stronger.
+
+(* INTERCEPTOR LEVEL ("each sender report for a bound local stream", several
+   streams): after any sequence of BindLocalStream / UnbindLocalStream / writes /
+   ticks, a tick writes a report for SSRC s iff s is bound, and that report is
+   the specification's report on the history of s alone (its clock rate and its
+   writes since its latest bind, [trackh]) - streams do not influence each other *)
+Theorem C07_interceptor_reports : forall ek k1 ul ops now s rep,
+  In (s, rep) (snd (si_step ek k1 ul (si_final ek k1 ul [] ops) (SITick now))) <->
+  exists rate h, fold_left (trackh s) ops None = Some (rate, h) /\
+                 rep = sp_report ek k1 rate ul h now.
+Proof. exact tick_reports. Qed.
+Print Assumptions C07_interceptor_reports.
